@@ -27,9 +27,13 @@ fn number_decode_stub(data: &[u8]) -> Option<usize> {
 // number_decode runs: the harness then feeds real decimal digit strings instead of marker digits.
 fn stub_active() -> bool { number_decode(b"~").is_some() }
 fn expand(buf: &[u8], v: &[usize; 10]) -> Vec<u8> {
+    // a symbolic field is a letter a..j that does not follow another letter (`i=`, the final `c`/`m`/`u` of a
+    // sequence and similar are literal text of the template)
     let mut out = Vec::new();
+    let mut prev_alpha = false;
     for &c in buf {
-        if c >= b'a' && c <= b'j' { out.extend(v[(c - b'a') as usize].to_string().bytes()); } else { out.push(c); }
+        if c >= b'a' && c <= b'j' && !prev_alpha { out.extend(v[(c - b'a') as usize].to_string().bytes()); } else { out.push(c); }
+        prev_alpha = c.is_ascii_alphabetic();
     }
     out
 }
